@@ -165,22 +165,26 @@ func c20Pump(c *Ctx, run *ev.Run) {
 		ErrEvery  int    `json:"err_every"`
 		FailWrite int    `json:"fail_write"`
 		URLs      int    `json:"urls"`
+		SignalAt  int    `json:"signal_at"`
 	}
 	// with as many label sets as results every observation creates new series, which makes observing
 	// much slower than handing results over: the pump must still observe every one of them
-	cmds := []cmdT{{"pump", 100, 0, 0, 0}, {"pump", 5000, 3, 0, 0}, {"pump", 30000, 7, 0, 0}, {"pump", 1, 1, 0, 0}, {"pump", 40000, 5, 0, 40000}, {"pump", 12000, 0, 0, 12000},
+	cmds := []cmdT{{"pump", 100, 0, 0, 0, 0}, {"pump", 5000, 3, 0, 0, 0}, {"pump", 30000, 7, 0, 0, 0}, {"pump", 1, 1, 0, 0, 0}, {"pump", 40000, 5, 0, 40000, 0}, {"pump", 12000, 0, 0, 12000, 0},
+		// one interrupt arrives while results are still coming in (the first Ctrl-C stops the attack, the
+		// results of the hits in flight keep arriving): they are written, so they must be observed
+		{"pump", 300, 4, 0, 0, 100}, {"pump", 5000, 0, 0, 50, 1}, {"pump", 2000, 3, 0, 0, 1999},
 		// the output starts failing at some write: every result the pump took before giving up was observed
-		{"pump", 50, 4, 3, 0}, {"pump", 50, 0, 9, 0}, {"pump", 400, 5, 120, 0}, {"pump", 10, 1, 1, 0}}
+		{"pump", 50, 4, 3, 0, 0}, {"pump", 50, 0, 9, 0, 0}, {"pump", 400, 5, 120, 0, 0}, {"pump", 10, 1, 1, 0, 0}}
 	if !c.Quick() {
-		cmds = append(cmds, cmdT{"pump", 200000, 2, 0, 0}, cmdT{"pump", 60000, 0, 0, 0}, cmdT{"pump", 1025, 5, 0, 0}, cmdT{"pump", 2049, 1, 0, 0}, cmdT{"pump", 150000, 3, 0, 150000})
+		cmds = append(cmds, cmdT{"pump", 200000, 2, 0, 0, 0}, cmdT{"pump", 60000, 0, 0, 0, 0}, cmdT{"pump", 1025, 5, 0, 0, 0}, cmdT{"pump", 2049, 1, 0, 0, 0}, cmdT{"pump", 150000, 3, 0, 150000, 0}, cmdT{"pump", 100000, 2, 0, 0, 50000})
 		for k := 1; k <= 40; k++ {
-			cmds = append(cmds, cmdT{"pump", 60, 3, k, 0})
+			cmds = append(cmds, cmdT{"pump", 60, 3, k, 0, 0})
 		}
 	}
 	in, out := filepath.Join(dir, "in"), filepath.Join(dir, "out")
 	var sb bytes.Buffer
 	for _, cm := range cmds {
-		fmt.Fprintf(&sb, `{"op":%q,"results":%d,"err_every":%d,"fail_write":%d,"urls":%d}`+"\n", cm.Op, cm.Results, cm.ErrEvery, cm.FailWrite, cm.URLs)
+		fmt.Fprintf(&sb, `{"op":%q,"results":%d,"err_every":%d,"fail_write":%d,"urls":%d,"signal_at":%d}`+"\n", cm.Op, cm.Results, cm.ErrEvery, cm.FailWrite, cm.URLs, cm.SignalAt)
 	}
 	_ = os.WriteFile(in, sb.Bytes(), 0o644)
 	ex := exec.Command(c.Bin("probe.test"), "-test.run", "^TestVerifProbe$", "-test.count=1")
@@ -242,7 +246,10 @@ func c20Pump(c *Ctx, run *ev.Run) {
 		run.Eval(1)
 		run.Count("pump_runs", 1)
 		run.Count("pump_results_fed", int64(n))
-		det := map[string]any{"results_fed": n, "err_every": cmds[i].ErrEvery, "answer": json.RawMessage(l)}
+		det := map[string]any{"results_fed": n, "err_every": cmds[i].ErrEvery, "interrupt_after_results": cmds[i].SignalAt, "answer": json.RawMessage(l)}
+		if cmds[i].SignalAt > 0 {
+			run.Count("pump_runs_with_an_interrupt", 1)
+		}
 		switch {
 		case a.Err != "" || a.Panic != "":
 			run.Violate("C20/pump/error", fmt.Sprintf("result pump on %d results: err=%q panic=%q", n, a.Err, a.Panic), det)
